@@ -292,7 +292,10 @@ CHECKS = {
         cat="proof",
         text="Theorems (Props/C16.v, exact arithmetic): for every raster, zone labelling and zone k the generic model of do_mean returns the "
              "arithmetic mean and the count of exactly the pixels whose zone is k and that are neither nodata/NaN nor in a zone-nodata cell; "
-             "NaN and 0 for an empty zone; the whole result is invariant under every rearrangement of the pixels. The binary64 instance "
+             "NaN and 0 for an empty zone; the whole result is invariant under every rearrangement of the pixels; zone k's result depends on "
+             "the cells of zone k only (C16_zone_isolated), a mean lies within the range of the pixels it averages (C16_mean_within_range), and "
+             "the counts of zones lo..lo+n-1 add up to the number of valid pixels with an id in that range - none lost, none counted twice "
+             "(C16_counts_partition). The binary64 instance "
              "(float64 accumulators after the fix, float32/float64 store) is compared bit-for-bit with the compiled kernel per time step; "
              "single zones of 1e6..2.6e7 pixels are held against the exact integer sum and count (the accuracy clause), rearrangements, "
              "the accessor on numpy and dask inputs with NaN pixels are run on the implementation.",
